@@ -49,6 +49,7 @@ type World struct {
 	phiBusy  map[*ssa.Phi]bool
 	memEnv   map[*ssa.Alloc]ssa.Value // last value stored to a multi-store local on the current path
 	files    map[string][]byte
+	all      map[*ssa.Function]bool
 	overlay  map[string][]byte
 }
 
@@ -129,6 +130,13 @@ func (w *World) InModule(fn *ssa.Function) bool {
 }
 
 func readFile(name string) ([]byte, error) { return os.ReadFile(name) }
+
+func (w *World) allFuncs() map[*ssa.Function]bool {
+	if w.all == nil {
+		w.all = ssautil.AllFunctions(w.Prog)
+	}
+	return w.all
+}
 
 func (w *World) InModulePkg(p *types.Package) bool {
 	return p != nil && strings.HasPrefix(p.Path(), modPath)
